@@ -76,20 +76,30 @@ pub fn probe_diag_child() {
     }
 }
 
+/// D7, measured in-process: fd 2 is temporarily redirected into a pipe while every reader kind is
+/// constructed once, and the library's DANGER diagnostics are parsed from it.
 pub fn measure_tables() -> Result<TableDomain, String> {
-    let exe = std::env::current_exe().map_err(|e| e.to_string())?;
-    let mut child = std::process::Command::new(exe)
-        .arg("--probe-diag")
-        .stdout(std::process::Stdio::null())
-        .stderr(std::process::Stdio::piped())
-        .spawn()
-        .map_err(|e| e.to_string())?;
-    let mut txt = String::new();
-    child.stderr.take().unwrap().read_to_string(&mut txt).map_err(|e| e.to_string())?;
-    let st = child.wait().map_err(|e| e.to_string())?;
-    if !st.success() {
-        return Err(format!("probe child failed: {:?}", st));
-    }
+    use std::os::fd::FromRawFd;
+    static LOCK: std::sync::Mutex<()> = std::sync::Mutex::new(());
+    let _g = LOCK.lock().unwrap();
+    let txt = unsafe {
+        let mut fds = [0i32; 2];
+        if libc::pipe(fds.as_mut_ptr()) != 0 {
+            return Err("pipe failed".into());
+        }
+        let saved = libc::dup(2);
+        if saved < 0 || libc::dup2(fds[1], 2) < 0 {
+            return Err("dup failed".into());
+        }
+        libc::close(fds[1]);
+        probe_diag_child();
+        libc::dup2(saved, 2);
+        libc::close(saved);
+        let mut f = std::fs::File::from_raw_fd(fds[0]);
+        let mut txt = String::new();
+        f.read_to_string(&mut txt).map_err(|e| e.to_string())?;
+        txt
+    };
     let mut allowed: BTreeMap<String, Vec<String>> = BTreeMap::new();
     let mut cur: Option<String> = None;
     let mut denied: Vec<&str> = vec![];
@@ -119,6 +129,23 @@ pub fn measure_tables() -> Result<TableDomain, String> {
         return Err(format!("probe output incomplete: {:?}", allowed));
     }
     Ok(TableDomain { allowed })
+}
+
+/// The environment of a fuzz target (no command line).
+pub fn fuzz_env() -> Env {
+    vcore::engine::silence_panics();
+    let tables = measure_tables().expect("table domain");
+    if std::env::var("VPROP_STDERR").is_err() {
+        // the library prints a diagnostic on every construction of a u8 reader: fd 2 is discarded
+        // (libFuzzer's progress lines go with it; crash artifacts and the exit status remain)
+        unsafe {
+            let fd = libc::open(b"/dev/null\0".as_ptr() as *const libc::c_char, libc::O_WRONLY);
+            if fd >= 0 {
+                libc::dup2(fd, 2);
+            }
+        }
+    }
+    Env { tables, checks: cfg!(feature = "checks"), no_copy_impls: cfg!(feature = "no_copy_impls"), debug_assertions: cfg!(debug_assertions) }
 }
 
 pub fn main_entry() -> i32 {
